@@ -198,27 +198,49 @@ def eval_mode(m, env):
 
 
 class FS:
-    """Abstract file-system state: root-relative normalised path -> prog | ('text', str)."""
+    """Abstract file-system state: root-relative physical path -> prog | ('text', str),
+    plus symbolic links to directories (root-relative link path -> physical target dir)."""
 
     def __init__(self):
         self.files = {}
+        self.links = {}
 
     def copy(self):
         f = FS()
         f.files = dict(self.files)
+        f.links = dict(self.links)
         return f
 
 
-def resolve(including_dir, spelling):
-    """The property's rule: relative to the including file; absolute paths as they are."""
+def walk(fs, start_dir, spelling):
+    """Resolve `spelling` from the physical directory `start_dir` the way the operating
+    system does: component by component, following a symbolic link as soon as it is
+    met, so that '..' applies to the directory the link points to."""
+    cur = [c for c in start_dir.split("/") if c not in ("", ".")]
+    for comp in spelling.split("/"):
+        if comp in ("", "."):
+            continue
+        if comp == "..":
+            if not cur:
+                raise Unknown("escapes root")
+            cur.pop()
+            continue
+        cand = "/".join(cur + [comp])
+        if cand in fs.links:
+            cur = [c for c in fs.links[cand].split("/") if c]
+        else:
+            cur = cur + [comp]
+    return "/".join(cur)
+
+
+def resolve(fs, including_dir, spelling):
+    """The property's rule: relative to the (directory of the) including file, i.e. the
+    file that was actually read; absolute paths as they are."""
     if spelling.startswith("<ROOT>/"):
-        return posixpath.normpath(spelling[len("<ROOT>/"):])
+        return walk(fs, "", spelling[len("<ROOT>/"):])
     if spelling.startswith("/"):
         raise Unknown("absolute path outside root")
-    p = posixpath.normpath(posixpath.join(including_dir, spelling))
-    if p.startswith(".."):
-        raise Unknown("escapes root")
-    return p
+    return walk(fs, including_dir, spelling)
 
 
 def expand_file(fs, path, depth=0, stack=()):
@@ -234,7 +256,7 @@ def expand_file(fs, path, depth=0, stack=()):
     registry = {}
     d = posixpath.dirname(path)
     for sp in prog["includes"]:
-        tgt = resolve(d, sp)
+        tgt = resolve(fs, d, sp)
         sub = expand_file(fs, tgt, depth + 1, stack + (path,))
         registry[sub["name"]] = sub
         # nested includes are visible too (the implementation propagates them upwards);
@@ -346,7 +368,7 @@ def called_programs(fs, main_path):
         reg = {}
         for sp in prog["includes"]:
             try:
-                t = resolve(d, sp)
+                t = resolve(fs, d, sp)
             except Unknown:
                 continue
             p2 = fs.files.get(t)
